@@ -11,6 +11,7 @@
         pop closure as it was before commit c3499288 (`Variant.oldPop`)
     §4  the abstract specification (no stack, no indices: a set of running evaluations)
     §5  iox.CtxWriter
+    §5b io.Copy into a CtxWriter (`copyFrom`)
     §6  the two-thread machine (trigger goroutine / evaluator) with one atomic step per access
         to the shared slice headers and elements, with the mutex (current code) and without
         (the code before commit 243f567c)
@@ -559,6 +560,75 @@ def Writer.passes (c : Ctxs) : Writer → Bool
 /-- `Write(p)`: the bytes appended to the sink and the returned `n` -/
 def Writer.write (c : Ctxs) (w : Writer) (p : List UInt8) (sinkBefore : List UInt8) : List UInt8 × Nat :=
   if w.passes c then (sinkBefore ++ p, p.length) else (sinkBefore, 0)
+
+
+/-! ## §5b `io.Copy(ctxWriter, src)` (io/io.go copyBuffer, reached from internal/bitiox/bitiox.go:12-18,
+  pkg/interp/binary.go:486 `Binary.Display` raw output, pkg/interp/dump.go:286-303)
+
+  `iox.CtxWriter` has exactly one method of its own, `Write` (iox.go:37-44); it offers neither
+  `io.ReaderFrom` nor `io.StringWriter`, and its embedded `io.Writer` interface field promotes only
+  `Write`. So `io.Copy`/`io.CopyBuffer`/`io.CopyN`/`bitiox.CopyBits` run the generic loop
+  `for { nr := src.Read(buf); if nr > 0 { nw, ew := dst.Write(buf[:nr]); … } }`:
+  ONE `Write` — one context check — per chunk the source delivers. The context may be cancelled
+  while the copy runs (the interrupt goroutine): `cancelAfter = some k` says the cancellation lands
+  after the source has delivered `k` chunks (before the `Write` of chunk `k`), `none` = never. -/
+
+/-- the context state the `Write` of chunk `j` sees -/
+def ctxAt (cBefore cAfter : Ctxs) (cancelAfter : Option Nat) (j : Nat) : Ctxs :=
+  match cancelAfter with
+  | some k => if k ≤ j then cAfter else cBefore
+  | none => cBefore
+
+structure CopyRes where
+  /-- the sink's content -/
+  sink : List UInt8
+  /-- `written`, the first result of `io.Copy` -/
+  written : Nat
+  /-- `err != nil` -/
+  err : Bool
+deriving Repr, DecidableEq
+
+/-- io.go copyBuffer's loop from chunk number `j` on; `[]` = the source returns `0, io.EOF` -/
+def copyLoop (cB cA : Ctxs) (w : Writer) (ca : Option Nat) : Nat → List (List UInt8) → CopyRes → CopyRes
+  | _, [], r => r                                            -- `er == io.EOF`: break, err stays nil
+  | j, p :: rest, r =>
+    if p.length > 0 then                                     -- `if nr > 0 {`
+      let c := ctxAt cB cA ca j
+      let (s', nw) := w.write c p r.sink                     -- `nw, ew := dst.Write(buf[0:nr])`
+      let r' : CopyRes := ⟨s', r.written + nw, r.err⟩        -- `written += int64(nw)`
+      if !w.passes c then { r' with err := true }            -- `if ew != nil { err = ew; break }`
+      else if nw ≠ p.length then { r' with err := true }     -- `if nr != nw { err = ErrShortWrite; break }`
+      else copyLoop cB cA w ca (j + 1) rest r'
+    else copyLoop cB cA w ca (j + 1) rest r                  -- `nr == 0, er == nil`: read again
+
+/-- `io.Copy(w, src)` where `src` delivers `chunks` and then EOF -/
+def Writer.copyFrom (cB cA : Ctxs) (w : Writer) (chunks : List (List UInt8)) (cancelAfter : Option Nat)
+    (sinkBefore : List UInt8) : CopyRes :=
+  copyLoop cB cA w cancelAfter 0 chunks ⟨sinkBefore, 0, false⟩
+
+/-- a caller that hands the chunks to `Write` one by one and ignores the errors (`fmt.Fprintf`,
+    `io.WriteString` in a loop): the sink's content from chunk number `j` on -/
+def writeAll (cB cA : Ctxs) (w : Writer) (ca : Option Nat) : Nat → List (List UInt8) → List UInt8 → List UInt8
+  | _, [], s => s
+  | j, p :: rest, s => writeAll cB cA w ca (j + 1) rest (w.write (ctxAt cB cA ca j) p s).1
+
+/-- the same loop as `copyLoop` on chunk LENGTHS only (what the driver evaluates for MiB-sized
+    chunks; equal to the byte-level model by `Proofs.C20.copyLoop_len`): `(written, err)` -/
+def copyLen (passAt : Nat → Bool) : Nat → List Nat → Nat → Nat × Bool
+  | _, [], acc => (acc, false)
+  | j, n :: rest, acc =>
+    if n > 0 then
+      if passAt j then copyLen passAt (j + 1) rest (acc + n) else (acc, true)
+    else copyLen passAt (j + 1) rest acc
+
+/-- NOT the code: a `CtxWriter` with an `io.ReaderFrom` fast path (`ReadFrom` checks the context once
+    and then copies into the embedded writer) — `io.Copy` prefers `ReadFrom` over the loop. Kept as
+    the witness of what `copy_stops_at_cancel` excludes (seeded change of round 5). -/
+def Writer.copyFromFast (cB cA : Ctxs) (w : Writer) (chunks : List (List UInt8)) (cancelAfter : Option Nat)
+    (sinkBefore : List UInt8) : CopyRes :=
+  if w.passes (ctxAt cB cA cancelAfter 0) then
+    ⟨sinkBefore ++ chunks.flatten, chunks.flatten.length, false⟩
+  else ⟨sinkBefore, 0, true⟩
 
 
 /-! ## §7 an evaluation blocked in a call on its input
